@@ -1096,6 +1096,23 @@ where
     /// * `packets` - Vector of packets to restore
     pub fn restore_packets(&mut self, packets: Vec<GenericStorePacket<PacketIdType>>) {
         for packet in packets {
+            // An entry of the other protocol version cannot belong to this connection's session:
+            // it could neither be retransmitted nor acknowledged (and would stay stored with a
+            // free packet ID). Skip it like any other malformed entry.
+            let entry_version = match &packet {
+                GenericStorePacket::V3_1_1Publish(_) | GenericStorePacket::V3_1_1Pubrel(_) => {
+                    Version::V3_1_1
+                }
+                GenericStorePacket::V5_0Publish(_) | GenericStorePacket::V5_0Pubrel(_) => {
+                    Version::V5_0
+                }
+            };
+            if self.protocol_version != Version::Undetermined
+                && self.protocol_version != entry_version
+            {
+                error!("stored packet of another protocol version. Skip it");
+                continue;
+            }
             match &packet {
                 GenericStorePacket::V3_1_1Publish(p) => {
                     let qos = p.qos();
